@@ -174,6 +174,8 @@ func (it *Interp) Apply(op *Op) {
 		it.opSetRel(op)
 	case "removeEntity":
 		it.opRemoveEntity(op)
+	case "bulk":
+		it.opBulk(op)
 	case "addBatch", "removeBatch", "exchangeBatch":
 		it.opExchangeBatch(op)
 	case "setRelBatch":
@@ -865,6 +867,58 @@ func (it *Interp) opRemoveEntity(op *Op) {
 		it.classifyTargets([]int{op.E})
 	}
 	it.run(op, valid, func(b *Backend) { b.W.RemoveEntity(b.handle(op.E)) })
+}
+
+// bulkMasks returns the N distinct non-relation component sets of a bulk op (a pure function of op.N and op.Mode).
+func bulkMasks(op *Op) []uint16 {
+	x := uint64(op.Mode)*2654435761 + 12345
+	seen := map[uint16]bool{}
+	var out []uint16
+	for len(out) < op.N {
+		x = x*6364136223846793005 + 1442695040888963407
+		mask := uint16(x>>33) &^ comps.RelMask
+		if mask == 0 || seen[mask] {
+			continue
+		}
+		seen[mask] = true
+		out = append(out, mask)
+	}
+	return out
+}
+
+// opBulk scales the world up: N entities in N distinct archetypes (well beyond 128 / 256 archetypes, tables and graph
+// nodes) are created through the ID-based API; every 32nd stays alive, the others are removed at once. Generated as
+// the first operation of a case only (no observers, not locked), so that everything else then runs on a large world.
+func (it *Interp) opBulk(op *Op) {
+	if it.locked() {
+		panic("bad op: bulk under lock")
+	}
+	for _, o := range it.M.Obs {
+		if o.Registered {
+			panic("bad op: bulk with registered observers")
+		}
+	}
+	masks := bulkMasks(op)
+	base := len(it.M.Ents)
+	for i, m := range masks {
+		s := it.M.Create(listOf(m), nil, nil)
+		if i%32 != 0 {
+			it.M.Kill(s)
+		}
+	}
+	it.run(op, true, func(b *Backend) {
+		for i, m := range masks {
+			h := b.U.NewEntity(b.ids(listOf(m))...)
+			b.bind(base+i, h)
+			if i%32 != 0 {
+				b.W.RemoveEntity(h)
+			}
+		}
+	})
+	it.count("bulk-archetypes")
+	if op.N > 256 {
+		it.count("bulk-more-than-256-archetypes")
+	}
 }
 
 // ---------------------------------------------------------------------------------------------
@@ -1848,9 +1902,22 @@ func (it *Interp) freshWorld(b *Backend, withFilters bool) {
 	for _, c := range listOf(it.M.Reg) {
 		nb.register(c)
 	}
+	oldW, oldObs, oldOn := b.W, b.obs, b.obsOn
 	*b = *nb
-	for j := range it.M.Obs {
-		it.makeObs(b, j)
+	if it.Step%4 != 3 && len(oldObs) == len(it.M.Obs) {
+		// observer objects are not bound to a world: take them out of the old world and keep them for the new one
+		for j, o := range oldObs {
+			if oldOn[j] {
+				o.Unregister(oldW)
+			}
+		}
+		b.obs = oldObs
+		b.obsOn = make([]bool, len(oldObs))
+		it.count("observer-objects-moved-to-another-world")
+	} else {
+		for j := range it.M.Obs {
+			it.makeObs(b, j)
+		}
 	}
 	if !withFilters {
 		return
@@ -2010,6 +2077,9 @@ func opComps(op *Op) uint16 {
 	}
 	for _, r := range op.QRels {
 		m |= 1 << uint(r.C)
+	}
+	if op.K == "bulk" {
+		m |= 0xffff &^ comps.RelMask
 	}
 	switch op.K {
 	case "new", "newBatch", "add", "remove", "exchange", "set", "write", "setRel", "addBatch", "removeBatch", "exchangeBatch", "setRelBatch", "read", "probe":
